@@ -493,12 +493,15 @@ func (udc *UpsideDownCouch) UpdateWithAnalysis(doc index.Document,
 		deleteRowsAll = append(deleteRowsAll, deleteRows)
 	}
 
+	// commit the rows and adjust the cached count under the same lock that
+	// Reader() holds while it takes the KV snapshot and reads the count, so
+	// that a reader never pairs a snapshot with the count of another state
+	udc.m.Lock()
 	err = udc.batchRows(kvwriter, addRowsAll, updateRowsAll, deleteRowsAll)
 	if err == nil && backIndexRow == nil {
-		udc.m.Lock()
 		udc.docCount++
-		udc.m.Unlock()
 	}
+	udc.m.Unlock()
 	atomic.AddUint64(&udc.stats.indexTime, uint64(time.Since(indexStart)))
 	if err == nil {
 		atomic.AddUint64(&udc.stats.updates, 1)
@@ -686,12 +689,12 @@ func (udc *UpsideDownCouch) Delete(id string) (err error) {
 		deleteRowsAll = append(deleteRowsAll, deleteRows)
 	}
 
+	udc.m.Lock()
 	err = udc.batchRows(kvwriter, nil, nil, deleteRowsAll)
 	if err == nil {
-		udc.m.Lock()
 		udc.docCount--
-		udc.m.Unlock()
 	}
+	udc.m.Unlock()
 	atomic.AddUint64(&udc.stats.indexTime, uint64(time.Since(indexStart)))
 	if err == nil {
 		atomic.AddUint64(&udc.stats.deletes, 1)
@@ -939,7 +942,15 @@ func (udc *UpsideDownCouch) Batch(batch *index.Batch) (err error) {
 		return
 	}
 
+	// see UpdateWithAnalysis: rows and cached count change together with
+	// respect to Reader()
+	udc.m.Lock()
 	err = udc.batchRows(kvwriter, addRowsAll, updateRowsAll, deleteRowsAll)
+	if err == nil {
+		udc.docCount += docsAdded
+		udc.docCount -= docsDeleted
+	}
+	udc.m.Unlock()
 	if err != nil {
 		_ = kvwriter.Close()
 		atomic.AddUint64(&udc.stats.errors, 1)
@@ -951,10 +962,6 @@ func (udc *UpsideDownCouch) Batch(batch *index.Batch) (err error) {
 	atomic.AddUint64(&udc.stats.indexTime, uint64(time.Since(indexStart)))
 
 	if err == nil {
-		udc.m.Lock()
-		udc.docCount += docsAdded
-		udc.docCount -= docsDeleted
-		udc.m.Unlock()
 		atomic.AddUint64(&udc.stats.updates, numUpdates)
 		atomic.AddUint64(&udc.stats.deletes, docsDeleted)
 		atomic.AddUint64(&udc.stats.batches, 1)
@@ -1008,12 +1015,12 @@ func (udc *UpsideDownCouch) DeleteInternal(key []byte) (err error) {
 }
 
 func (udc *UpsideDownCouch) Reader() (index.IndexReader, error) {
+	udc.m.RLock()
+	defer udc.m.RUnlock()
 	kvr, err := udc.store.Reader()
 	if err != nil {
 		return nil, fmt.Errorf("error opening store reader: %v", err)
 	}
-	udc.m.RLock()
-	defer udc.m.RUnlock()
 	return &IndexReader{
 		index:    udc,
 		kvreader: kvr,
